@@ -22,7 +22,8 @@ pub fn replay(args: &Args) {
     std::fs::create_dir_all(&dir).unwrap();
     let path = dir.join("lexer_input.a2l");
     let mut out = Out::stdout();
-    let (mut n, mut bad) = (0u64, 0u64);
+    let (mut n, mut bad, mut nloads) = (0u64, 0u64, 0u64);
+    let loads = args.flag("loads");
     for case in &cases {
         n += 1;
         let bytes: Vec<u8> = case["bytes"].as_array().map(|a| a.iter().map(|x| x.as_u64().unwrap() as u8).collect()).unwrap_or_default();
@@ -33,6 +34,22 @@ pub fn replay(args: &Args) {
                 std::process::exit(2);
             }
         };
+        // C03: every entry point terminates with Ok or Err on this input, whatever the tokenizer says
+        if loads {
+            let spec = Some("block \"IF_DATA\" taggedunion if_data { \"X\" struct { uint; }; };".to_string());
+            for (what, r) in [
+                ("load_from_string(strict)", guarded(|| a2lfile::load_from_string(&text, None, true).is_ok())),
+                ("load_from_string(lenient)", guarded(|| a2lfile::load_from_string(&text, None, false).is_ok())),
+                ("load_from_string(lenient, a2ml spec)", guarded(|| a2lfile::load_from_string(&text, spec.clone(), false).is_ok())),
+                ("load_fragment", guarded(|| a2lfile::load_fragment(&text, None).is_ok())),
+            ] {
+                nloads += 1;
+                if let Err(p) = r {
+                    bad += 1;
+                    out.line(&json!({"mismatch": format!("{what} panicked: {p}"), "kind": "panic", "case": case}));
+                }
+            }
+        }
         let want = &case["r"];
         match guarded(|| a2lfile::verif::tokenize(&path, &text)) {
             Err(p) => {
@@ -68,5 +85,5 @@ pub fn replay(args: &Args) {
             }
         }
     }
-    out.line(&json!({"summary": {"cases": n, "mismatches": bad}}));
+    out.line(&json!({"summary": {"cases": n, "mismatches": bad, "loads": nloads}}));
 }
